@@ -136,7 +136,7 @@ func VerifH_C09_resumeSkip() {
 			m.genStrings(1)
 			m.ways = append(m.ways, m.genWay(-1, -1, 1, 1))
 		} else {
-			m = simpleBlock(1)
+			m = simpleBlock(vParam("nodesPerBlock", 2))
 			for _, o := range m.expected() {
 				c.want = append(c.want, o)
 				c.blockOf = append(c.blockOf, b)
@@ -157,6 +157,8 @@ func VerifH_C09_resumeSkip() {
 			return
 		}
 		vAssert(vSame(sc.Object(), c.want[i]), "object-in-order")
+		// a slow consumer: the rest of the pipeline runs ahead as far as it can
+		vYield()
 	}
 	off := sc.FullyScannedBytes()
 	sc.Close()
@@ -165,7 +167,10 @@ func VerifH_C09_resumeSkip() {
 	vReach("stopped")
 	sc2 := New(context.Background(), &vReader{data: c.f.data[off:]}, procs2)
 	sc2.SkipWays = true
-	j := stop - 1 // the block of the last delivered object is delivered again
+	j := 0 // the block of the last delivered object is delivered again from its first object
+	for c.blockOf[j] != b {
+		j++
+	}
 	for sc2.Scan() {
 		if j >= len(c.want) {
 			vAssert(false, "resume-too-many-objects")
